@@ -15,6 +15,8 @@ Shapes that are checked (any other shape raises):
     self.resultlen = None
   * handle_read_event appends the bytes returned by readfd to state_buffer before any
     rewriting of `data` (strip_ansi concerns the child log only)
+  * ServerOptions.make_pipes: the loop that sets O_NDELAY and the pipe ends it covers
+    (PIPE_NONBLOCK_STDIN/STDOUT/STDERR)
   * PEventListenerDispatcher.writable returns False (nothing is ever written to
     a listener through its stdout dispatcher)
 """
@@ -158,6 +160,34 @@ def read_facts():
                      and any(isinstance(t, ast.Name) and t.id == 'data' for t in n.targets))
     if not assigns or any(l < aug[0] for l in assigns[1:]) or assigns[0] > aug[0]:
         raise Reject('handle_read_event: `data` is rewritten before it is appended to state_buffer')
+    # ServerOptions.make_pipes: which parent-side pipe ends are put in non-blocking mode
+    with open(os.path.join(vlib.REPO, 'supervisor', 'options.py')) as f:
+        otree = ast.parse(f.read())
+    mp = _func(_class(otree, 'ServerOptions').body, 'make_pipes')
+    ends = None
+    for n in ast.walk(mp):
+        if not isinstance(n, ast.For):
+            continue
+        body_src = '\n'.join(ast.unparse(st) for st in n.body)
+        if 'F_SETFL' not in body_src:
+            continue
+        if 'O_NDELAY' not in body_src and 'O_NONBLOCK' not in body_src:
+            raise Reject('make_pipes: F_SETFL without O_NDELAY/O_NONBLOCK')
+        if ends is not None or not isinstance(n.iter, (ast.Tuple, ast.List)):
+            raise Reject('make_pipes: unexpected loop over the descriptors')
+        ends = []
+        for e in n.iter.elts:
+            if isinstance(e, ast.Subscript) and _attr_chain(e.value) == 'pipes' and isinstance(e.slice, ast.Constant):
+                ends.append(e.slice.value)          # for fd in (pipes['stdout'], ...)
+            elif isinstance(e, ast.Constant) and isinstance(e.value, str) and 'pipes[%s]' % n.target.id in body_src:
+                ends.append(e.value)                # for name in ('stdout', ...): fd = pipes[name]
+            else:
+                raise Reject('make_pipes: unexpected element in the descriptor loop: %s' % ast.dump(e))
+    if ends is None:
+        raise Reject('make_pipes: no loop setting O_NDELAY found')
+    if [x for x in ends if x not in ('stdin', 'stdout', 'stderr', 'child_stdin', 'child_stdout', 'child_stderr')]:
+        raise Reject('make_pipes: unknown pipe end in %r' % ends)
+    facts['nonblock_ends'] = ends
     wr = _func(cls.body, 'writable')
     if not (len(wr.body) == 1 and isinstance(wr.body[0], ast.Return)
             and isinstance(wr.body[0].value, ast.Constant) and wr.body[0].value.value is False):
@@ -177,6 +207,9 @@ def generate():
     ]
     lines.append('Definition ANSI_BEGIN : list Z := %s.' % vlib.bytes_lit(f['ANSI_BEGIN']))
     lines.append('Definition ANSI_TERMS : list Z := %s.' % vlib.bytes_lit(f['ANSI_TERMS']))
+    lines.append('(* ServerOptions.make_pipes sets O_NDELAY on these ends of a child\'s pipes: %s *)' % ', '.join(f['nonblock_ends']))
+    for end in ('stdin', 'stdout', 'stderr'):
+        lines.append('Definition PIPE_NONBLOCK_%s : bool := %s.' % (end.upper(), 'true' if end in f['nonblock_ends'] else 'false'))
     for k in ('ACKNOWLEDGED', 'READY', 'BUSY', 'UNKNOWN'):
         lines.append('Definition LS_CODE_%s : Z := %d.' % (names[k], f['codes'][k]))
     lines.append('(* state assigned by PEventListenerDispatcher.__init__, as its EventListenerStates code *)')
